@@ -84,6 +84,10 @@ impl<C: Config, Q: Query> Snapshot<C, Q> {
         // proceeding, to ensure that there are no more references that can
         // modify the query's state.
         drop(tracked_engine);
+
+        #[cfg(feature = "verif")]
+        qbice_storage::verif::yield_point("pre:execute:before_waitgroup").await;
+
         wait_group.wait().await;
 
         let is_in_scc = lock_guard.query_computing().is_in_scc();
